@@ -62,8 +62,13 @@ def parse_module_uid(uid):
         return None
     if ":" not in uid:
         return None
-    if "/" in uid or "\n" in uid:
+    if "\n" in uid:
         raise KeyError("grey")
+    if "/" in uid:
+        # a directory prefix (as on RPM names) is not part of the canonical UID
+        uid = uid.rsplit("/", 1)[1]
+        if ":" not in uid:
+            raise KeyError("grey")
     parts = uid.split(":")
     if any(p == "" for p in parts) or len(parts) > 4:
         return None
